@@ -136,6 +136,39 @@ Theorem C14_failed_show_example : no_known init ex_fail_ops /\
 Proof. exact (conj ex_fail_no_known ex_fail_outputs). Qed.
 Print Assumptions C14_failed_show_example.
 
+(** Several remembered queries side by side (names are compared exactly; the model identifies a view by a number).
+    Frame property: an operation on view [a] leaves the entry of every other view [b] — query, store (frames, hence
+    the store's mark) and catalog mark — unchanged; for all histories; and what an operation on [a] answers and does to
+    [a] depends on the layout and on [a]'s own entry only. *)
+Theorem C14_frame_property : forall st o b, op_view o <> Some b ->
+  lookup b (st_entries (fst (step st o))) = lookup b (st_entries st).
+Proof. exact frame_property. Qed.
+Print Assumptions C14_frame_property.
+
+Theorem C14_frame_property_history : forall ops st b,
+  (forall o, In o ops -> op_view o <> Some b) ->
+  lookup b (st_entries (run_state st ops)) = lookup b (st_entries st).
+Proof. exact frame_property_history. Qed.
+Print Assumptions C14_frame_property_history.
+
+Theorem C14_view_independent : forall st st' o a,
+  op_view o = Some a ->
+  st_layout st = st_layout st' ->
+  lookup a (st_entries st) = lookup a (st_entries st') ->
+  snd (step st o) = snd (step st' o) /\
+  lookup a (st_entries (fst (step st o))) = lookup a (st_entries (fst (step st' o))).
+Proof. exact view_independent. Qed.
+Print Assumptions C14_view_independent.
+
+(** three views (two WHERE constants over one type, one over another type), a rejected REMEMBER, a failed SHOW: no
+    class, every SHOW the live selection of its OWN query *)
+Theorem C14_several_views_example : no_known init ex_views_ops /\
+  map (fun o => match o with ObsShow out _ _ _ => map e_k out | ObsRejected => [99] | ObsShowFailed ap _ _ => 77 :: map e_k (concat ap) | _ => [] end)
+      (run init ex_views_ops)
+  = [[]; []; []; []; [99]; []; [1; 4]; [77; 5]; [2]; [3; 5]; [1; 4]].
+Proof. exact (conj ex_views_no_known ex_views_outputs). Qed.
+Print Assumptions C14_several_views_example.
+
 (** REMEMBER under an existing name is rejected and changes nothing; under a fresh name it is not rejected. *)
 Theorem C14_remember_dup_rejected : forall st name q ch en,
   lookup name (st_entries st) = Some en -> step st (ORemember name q ch) = (st, ObsRejected).
